@@ -1,20 +1,23 @@
 #!/bin/bash
 # run_all_seeds.sh [seed-id-prefix]: every seeded change against the check of the property it was
 # written for, on a scratch copy of /repo (PYVC_REPO override; /repo itself is not touched).
-# Evidence files are saved and restored (a run on a changed tree is not evidence for /repo).
+# The checks run from a scratch copy of /verif as well, so the evidence files of /verif (which
+# must describe /repo) are never overwritten by a run on a changed tree.
 pre=${1:-}
 work=$(mktemp -d /tmp/seedrun.XXXXXX)
-cp -r /verif/evidence $work/evidence.save
+mkdir -p $work/verif
+(cd /verif && cp -r pyvc contracts spec replay bounded tools check known_findings.json \
+   expected_obligations.json properties.jsonl $work/verif/)
+mkdir -p $work/verif/evidence $work/verif/replays
 fail=0
 for d in /verif/seeded/${pre}*/; do
   sid=$(basename $d); pid=${sid%%-*}
   rm -rf $work/repo; mkdir -p $work/repo; cp -r /repo/file_builder $work/repo/
   (cd $work/repo && patch -p1 -s < $d/patch.diff) || { echo "$sid APPLY-FAILED"; fail=1; continue; }
-  out=$(cd /verif && PYVC_REPO=$work/repo timeout 1800 ./check $pid 2>&1); rc=$?
+  out=$(cd $work/verif && PYVC_REPO=$work/repo timeout 1800 ./check $pid 2>&1); rc=$?
   v=$(echo "$out" | grep -E "^VIOLATION" | head -1 | sed 's/.*obligation=//' | cut -c1-110)
   echo "$sid exit=$rc $v"
   [ $rc -eq 1 ] || fail=1
 done
-rm -rf /verif/evidence; cp -r $work/evidence.save /verif/evidence
-rm -rf $work /verif/replays/C*
+rm -rf $work
 exit $fail
